@@ -26,7 +26,7 @@ PROPERTY = "C19"
 LEVEL = "model_checking"
 FAMILIES = ["c04", "c06", "c07", "c08", "c10", "c11", "c12", "c13", "c14", "c15", "c16"]
 META = {
-    "engine": "E1 nir2smt (two netlists of one instance, reset-rooted miter with shared inputs) + guarded elaboration",
+    "engine": "E1 nir2smt (three netlists of one instance - first, second, and one elaborated for a platform object - reset-rooted miters with shared inputs) + guarded, time-limited elaboration",
     "encoded": ["elaborate() of csr.Multiplexer, csr.Decoder, csr.Bridge, csr.Register and field actions, "
                 "csr.EventMonitor, event.Monitor, WishboneCSRBridge, wishbone.Decoder, wishbone.Arbiter, WishboneSRAM, "
                 "gpio.Peripheral", "csr.bus.Multiplexer._Shadow.prepare (termination, by execution)"],
@@ -122,6 +122,14 @@ def _degenerate():
             return Harness(m, flat_ports(m, *regs), mux=m)
         return f
 
+    def mux_sparse():
+        mm = MemoryMap(addr_width=40, data_width=8)
+        regs = [StubReg(8, "rw"), StubReg(8, "rw")]
+        mm.add_resource(regs[0], name=("lo",), size=1, addr=0)
+        mm.add_resource(regs[1], name=("hi",), size=1, addr=1 << 39)
+        m = csr.Multiplexer(mm, shadow_overlaps=0)
+        return Harness(m, flat_ports(m, *regs), mux=m)
+
     def csr_dec():
         d = csr.Decoder(addr_width=4, data_width=8)
         return Harness(d, flat_ports(d), dec=d)
@@ -160,7 +168,7 @@ def _degenerate():
         br = WishboneCSRBridge(bus)
         return Harness(br, flat_ports(br, bus), br=br, bus=bus)
 
-    return {"mux-empty": mux([]), "mux-write-only": mux(["w", "w"]), "mux-read-only": mux(["r"]), "csr-decoder-empty": csr_dec,
+    return {"mux-sparse-40-bit-no-sharing": mux_sparse, "mux-empty": mux([]), "mux-write-only": mux(["w", "w"]), "mux-read-only": mux(["r"]), "csr-decoder-empty": csr_dec,
             "wishbone-decoder-empty": wb_dec, "arbiter-no-initiators": arb0, "event-monitor-no-events": evmap0,
             "csr-event-monitor-no-events": evmon0, "gpio-one-pin": gpio1, "sram-two-words": sram1,
             "bridge-empty-map": bridge_empty, "wishbone-csr-bridge-minimal": wbcsr_min}
@@ -226,7 +234,7 @@ REFUSALS = ["csr-add-twice", "csr-add-overlap", "csr-add-name-clash", "csr-add-o
             "wb-add-twice", "wb-add-overlap", "wb-add-after-freeze", "map-add-resource-after-freeze",
             "map-window-into-itself-twice"]
 
-DEGENERATE = ["mux-empty", "mux-write-only", "mux-read-only", "csr-decoder-empty", "wishbone-decoder-empty",
+DEGENERATE = ["mux-sparse-40-bit-no-sharing", "mux-empty", "mux-write-only", "mux-read-only", "csr-decoder-empty", "wishbone-decoder-empty",
               "arbiter-no-initiators", "event-monitor-no-events", "csr-event-monitor-no-events", "gpio-one-pin",
               "sram-two-words", "bridge-empty-map", "wishbone-csr-bridge-minimal"]
 
@@ -287,6 +295,46 @@ def is_refusal(exc):
         return False
     last = tb[-1]
     return (os.sep + "amaranth_soc" + os.sep) in last.filename and (last.line or "").lstrip().startswith("raise")
+
+
+class _Platform:
+    """Stands for a synthesis platform: elaborate() receives this object instead of None (the simulator's and plain
+    rtlil.convert's value).  What a component builds must not depend on it."""
+
+
+class _WithPlatform:
+    pass
+
+
+def _with_platform(top):
+    from amaranth.hdl import Elaboratable, Fragment
+
+    class Shim(Elaboratable):
+        def elaborate(self, platform):
+            return Fragment.get(top, _Platform())
+    return Shim()
+
+
+class _Timeout(Exception):
+    pass
+
+
+ELAB_LIMIT_S = 60
+
+
+def _timed(fn):
+    """run fn() under a wall-clock limit (the process is single-threaded; SIGALRM interrupts pure-Python loops)"""
+    import signal
+
+    def on_alarm(signum, frame):
+        raise _Timeout()
+    old = signal.signal(signal.SIGALRM, on_alarm)
+    signal.setitimer(signal.ITIMER_REAL, ELAB_LIMIT_S)
+    try:
+        return fn()
+    finally:
+        signal.setitimer(signal.ITIMER_REAL, 0)
+        signal.signal(signal.SIGALRM, old)
 
 
 def _maps(h):
@@ -434,15 +482,20 @@ def check(item, out, stats):
     before = _maps(h)
     sys.setrecursionlimit(1200)
     ts = []
-    for n in (1, 2):
+    for n in (1, 2, 3):
         try:
-            ts.append(TS(h.top, h.ports, env=h.env))
+            # elaboration #3 hands elaborate() a platform object instead of None
+            ts.append(_timed(lambda: TS(h.top, h.ports, env=h.env, platform=_Platform() if n == 3 else None)))
+        except _Timeout:
+            return _violation(out, item, f"internal-error:{name}:does-not-terminate",
+                              f"C19 elaboration #{n} of {name} does not finish within {ELAB_LIMIT_S} s ({cfg_key(item)})",
+                              {"elab": n})
         except (ValueError, TypeError) as e:
             if n == 1 and is_refusal(e):
                 out.skipped = "refused at elaboration"
                 out.extra["refused"] = 1
                 return
-            kind = "internal-error" if n == 1 else "re-elaborate"
+            kind = "internal-error" if n == 1 else ("re-elaborate" if n == 2 else "platform-dependent")
             return _violation(out, item, f"{kind}:{name}:{type(e).__name__}:{_site(e)}",
                               f"C19 elaboration #{n} of {name} failed with {type(e).__name__}: {str(e)[:100]} "
                               f"({cfg_key(item)})", {"elab": n})
@@ -452,7 +505,7 @@ def check(item, out, stats):
             from ..nir2smt import Unsupported
             if isinstance(e, Unsupported):
                 raise
-            kind = "internal-error" if n == 1 else "re-elaborate"
+            kind = "internal-error" if n == 1 else ("re-elaborate" if n == 2 else "platform-dependent")
             key = f"{kind}:{name}:{type(e).__name__}:{_site(e)}"
             if type(e).__name__ == "NameError" and item.get("fam") == "bridge" and not _known_bridge_collision(item):
                 key += ":names-distinct-under-__join"
@@ -469,49 +522,63 @@ def check(item, out, stats):
     if after != before:
         return _violation(out, item, f"metadata-drift:{name}",
                           f"C19 elaborating {name} changed its memory map ({cfg_key(item)})")
-    ta, tb = ts
-    if ta.inputs != tb.inputs:
-        return _violation(out, item, f"different-hardware:{name}:ports",
-                          f"C19 second elaboration of {name} exposes different input ports ({cfg_key(item)})")
-    fa, ca = unroll(ta, D, init="reset", tag="m")
-    fb, cb = unroll(tb, D, init="reset", tag="m")
-    in_idx = set(ta.input_port_index.values())
-    obs = [s for i, s in enumerate(h.ports) if i not in in_idx and len(s) and ta.has(s) and tb.has(s)]
-    diffs = []
-    identical = 0
-    for t in range(D):
-        for s in obs:
-            x, y = fa[t].sig(s), fb[t].sig(s)
-            if x.eq(y):
-                identical += 1          # hash-consed to the same term: syntactically the same function of the inputs
-            else:
-                diffs.append(x != y)
-    out.extra["outputs_syntactically_identical"] = identical
-    if not diffs:
-        return
-    r, m = solve(ca + [z3.Or(*diffs)], stats, "re-elaboration-miter")
-    if len(stats.samples) < 5:
-        stats.samples.append({"component": name, "cfg": item, "query": "re-elaboration miter", "frames": D,
-                              "outputs_compared": len(obs), "verdict": r})
-    if r == "sat":
-        stim = model_stimulus(ta, fa, m)
-        v = {"stimulus": stim}
-        if not _replay_miter(item, stim):
-            raise Inconclusive("re-elaboration miter counterexample does not reproduce on the simulator")
-        stats.replays += 1
-        return _violation(out, item, f"different-hardware:{name}",
-                          f"C19 the second elaboration of one {name} instance behaves differently from the first "
-                          f"({D} cycles from reset) ({cfg_key(item)})", v)
+    ta = ts[0]
+    out.extra["outputs_syntactically_identical"] = 0
+    for which, tb in (("second", ts[1]), ("platform", ts[2])):
+        if ta.inputs != tb.inputs:
+            return _violation(out, item, f"different-hardware:{name}:ports:{which}",
+                              f"C19 the {which} elaboration of {name} exposes different input ports ({cfg_key(item)})")
+        fa, ca = unroll(ta, D, init="reset", tag="m")
+        fb, cb = unroll(tb, D, init="reset", tag="m")
+        in_idx = set(ta.input_port_index.values())
+        obs = [s for i, s in enumerate(h.ports) if i not in in_idx and len(s) and ta.has(s) and tb.has(s)]
+        diffs = []
+        identical = 0
+        for t in range(D):
+            for s in obs:
+                x, y = fa[t].sig(s), fb[t].sig(s)
+                if x.eq(y):
+                    identical += 1          # hash-consed to the same term: syntactically the same function of the inputs
+                else:
+                    diffs.append(x != y)
+        out.extra["outputs_syntactically_identical"] += identical
+        if not diffs:
+            continue
+        r, m = solve(ca + [z3.Or(*diffs)], stats, f"{which}-elaboration-miter")
+        if len(stats.samples) < 5:
+            stats.samples.append({"component": name, "cfg": item, "query": f"{which}-elaboration miter", "frames": D,
+                                  "outputs_compared": len(obs), "verdict": r})
+        if r == "sat":
+            stim = model_stimulus(ta, fa, m)
+            v = {"stimulus": stim, "which": which}
+            if not _replay_miter(item, stim, which):
+                raise Inconclusive(f"{which}-elaboration miter counterexample does not reproduce on the simulator")
+            stats.replays += 1
+            what = ("the second elaboration of one {n} instance behaves differently from the first" if which == "second" else
+                    "one {n} instance elaborated for a platform object behaves differently from the same instance "
+                    "elaborated with platform=None").format(n=name)
+            return _violation(out, item, f"different-hardware:{name}" + ("" if which == "second" else ":platform"),
+                              f"C19 {what} ({D} cycles from reset) ({cfg_key(item)})", v)
+        if r != "unsat":
+            raise Inconclusive(f"{which}-elaboration miter undecided")
 
 
-def _replay_miter(item, stim):
+def _replay_miter(item, stim, which="second"):
+    """simulate the same instance twice (second: both with platform=None; platform: the second time through a shim
+    that elaborates it for a platform object)"""
     h = maker(item)()
-    in_idx = None
     traces = []
     for n in (1, 2):
-        from ..nir2smt import TS
         obs = [s for s in h.ports if len(s) and id(s) not in h.env]
-        tr = simulate(h, stim, obs)
+        if n == 2 and which == "platform":
+            top = h.top
+            h.top = _with_platform(top)
+            try:
+                tr = simulate(h, stim, obs)
+            finally:
+                h.top = top
+        else:
+            tr = simulate(h, stim, obs)
         traces.append([[row.get(id(s)) for s in obs] for row in tr])
     return traces[0] != traces[1]
 
@@ -526,7 +593,7 @@ def replay(v):
     item = v["cfg"]
     q = v["query"]
     if q == "different-hardware" and v.get("stimulus"):
-        return _replay_miter(item, v["stimulus"])
+        return _replay_miter(item, v["stimulus"], v.get("which", "second"))
     class O:
         violations = []
         extra = {}
